@@ -959,7 +959,7 @@ def run(ctx, out):
                 out.cases += 1
                 out.stat("raw:" + tag)
                 case = {"kind": "raw", "proto": cfg[0], "api": cfg[1], "tag": tag, "stream_bytes": stream, "plan": plan,
-                        "plan_name": pname, "boom": boom.hex() if boom else None}
+                        "plan_name": pname, "boom": boom.hex() if boom else None, "wellformed": wellformed}
                 out.seen(("r", cfg, stream, tuple(plan)), nontrivial=bool(k.frames) or any(e[0] == "rc" for e in k.log))
                 if ref is None:
                     ref = (oc, case)
@@ -978,7 +978,8 @@ def run(ctx, out):
                     out.cases += 1
                     out.stat("ws:" + tag)
                     case = {"kind": "ws", "proto": cfg[0], "api": cfg[1], "tag": tag, "stream_bytes": stream, "raw": raw.hex(),
-                            "plan": plan, "plan_name": pname, "frames": meta, "boom": boom.hex() if boom else None}
+                            "plan": plan, "plan_name": pname, "frames": meta, "boom": boom.hex() if boom else None,
+                            "wellformed": wellformed}
                     out.seen(("w", cfg, raw, tuple(plan)), nontrivial=bool(k.frames) or any(e[0] == "rc" for e in k.log))
                     if not same_outcome(oc, ref[0]):
                         out.violations.append({"case": {"a": case_json(ref[1]), "b": case_json(case)},
@@ -1280,7 +1281,12 @@ def values_part(ctx, out, mb):
                 out.stat(f"values:{p[0]}")
                 cls = 0 if n - 2 < 128 else 1 if n - 3 < 16384 else 2 if n - 4 < 2097152 else 3
                 out.stat(f"values:rl_class_{cls}")
-                case = {"kind": "values", "proto": ver, "api": api, "packet": jsonable(p), "plan": plan, "stream_bytes": w if n < 400 else w[:400]}
+                case = {"kind": "values", "proto": ver, "api": api, "packet": jsonable(p), "plan": plan,
+                        "stream_bytes": w if n <= 60000 else w[:400]}
+                if n > 60000:
+                    case["not_replayable"] = "packet too large for the replay file; regenerate from the field values"
+                if p[0] == "publish" and p[2] == 2:
+                    case["then"] = wire(ver, ("ack", 6, p[5], None)).hex()
                 out.seen(("v", cfg, w[:64], n, hash(w)), nontrivial=True)
                 cbid, args = expected_event(cfg, p, set(OUT_Q1 + OUT_Q2))
                 if cbid == 7:
@@ -1308,7 +1314,6 @@ def values_part(ctx, out, mb):
                 if p[0] != "connack" and k.replies()[0] != want:
                     out.violations.append({"case": case_json(case), "what": f"reply bytes {k.replies()[0].hex()} expected {want.hex()}", "signature": "values-reply"})
                 if n <= 60000:
-                    case["stream_bytes"] = w if n < 400 else w[:400]
                     check_frames(out, mb, cfg, k, case, wellformed=True)
         mb.flush()
     # on_disconnect arguments after a loop error (reader-level protocol error, EOF)
@@ -1344,34 +1349,87 @@ def jsonable(p):
     return j(p)
 
 
-# ============================================================================ replay
+# ============================================================================ replay / search
+def rerun(r):
+    """re-run one recorded run description on the implementation"""
+    cfg = (r.get("proto", V311), r.get("api", 2))
+    stream = bytes.fromhex(r["stream"]) if "stream" in r else b""
+    boom = bytes.fromhex(r["boom"]) if r.get("boom") else None
+    if r.get("kind") == "ws":
+        k = Conn(cfg[0], cfg[1], ws=True, boom=boom)
+        k.s.inbuf += bytes.fromhex(r["raw"])
+    else:
+        k = Conn(cfg[0], cfg[1], boom=boom)
+        k.s.inbuf += stream
+    sched = r.get("schedule")
+    k.s.plan.extend(sched if sched is not None else r.get("plan", []))
+    if r.get("eof"):
+        k.s.eof = True
+    k.drive()
+    if r.get("then"):                       # values case, QoS 2: the PUBREL that releases the message
+        k.s.inbuf += bytes.fromhex(r["then"])
+        k.drive()
+    return cfg, stream, k
+
+
+def deviates(r):
+    """does the implementation still differ from the verified model on this recorded run?"""
+    class O:                                   # minimal Outcome
+        def __init__(self):
+            self.disagreements, self.validated, self.stats = [], 0, {}
+
+        def stat(self, k, n=1):
+            pass
+    o, mb = O(), ModelBatch()
+    cfg, stream, k = rerun(r)
+    case = dict(r)
+    case["stream_bytes"] = stream
+    if r.get("kind") == "ws":
+        check_against_model(o, mb, cfg, k, case, wellformed=bool(r.get("wellformed")), via_feed=True)
+        check_ws_model(o, mb, k, case)
+    elif r.get("kind") == "values":
+        check_frames(o, mb, cfg, k, case, wellformed=True)
+    else:
+        check_against_model(o, mb, cfg, k, case, wellformed=bool(r.get("wellformed")))
+    mb.flush()
+    return o.disagreements
+
+
 def replay(payload):
-    """payload["case"]: either one run description or {"a": ..., "b": ...}; holds iff all runs of the same
-    stream give the same outcome (and, for a values case, the expected callback)."""
+    """payload["case"]: one run description, {"a": ..., "b": ...} or {"regression": [...]}: holds iff all runs of
+    the same stream give the same outcome; with "check": "model" holds iff implementation and model agree"""
     case = payload.get("case", {})
+    if case.get("check") == "model":
+        d = deviates(case)
+        return (not d), {"deviations": [x.get("what") for x in d][:3], "detail": d[:1]}
     runs = [case[k] for k in ("a", "b") if k in case] or [case]
     if "regression" in case:
         runs = case["regression"]
-    outs = []
-    for r in runs:
-        cfg = (r.get("proto", V311), r.get("api", 2))
-        stream = bytes.fromhex(r["stream"]) if "stream" in r else b""
-        boom = bytes.fromhex(r["boom"]) if r.get("boom") else None
-        if r.get("kind") == "ws":
-            k = Conn(cfg[0], cfg[1], ws=True, boom=boom)
-            k.s.inbuf += bytes.fromhex(r["raw"])
-        else:
-            k = Conn(cfg[0], cfg[1], boom=boom)
-            k.s.inbuf += stream
-        sched = r.get("schedule")
-        if sched is not None:
-            k.s.plan.extend(sched)
-        else:
-            k.s.plan.extend(r.get("plan", []))
-        k.drive()
-        outs.append(k.outcome()[0])
+    outs = [rerun(r)[2].outcome()[0] for r in runs]
     same = all(o == outs[0] for o in outs)
     return same, {"outcomes": outs}
+
+
+def search(sctx, sout, disagreements):
+    """the correspondence broke: every recorded disagreement is a concrete input on which the implementation
+    leaves the verified model.  Re-run them; those that still deviate are reported as failing inputs
+    (shortest stream first)."""
+    seen = 0
+    for d in sorted(disagreements, key=lambda d: len(str(d.get("case", {}).get("stream", "")))):
+        c = d.get("case", {})
+        if seen >= 40 or c.get("kind") not in ("raw", "ws", "values") or c.get("not_replayable"):
+            continue
+        seen += 1
+        sout.cases += 1
+        c = dict(c)
+        c["check"] = "model"
+        try:
+            dev = deviates(c)
+        except Exception as e:           # noqa: BLE001
+            dev = [{"what": f"replay crashed: {type(e).__name__}: {e}"}]
+        if dev:
+            sout.violations.append({"case": c, "what": "implementation deviates from the verified model: " + str(dev[0].get("what")),
+                                    "detail": {k: v for k, v in dev[0].items() if k != "case"}, "signature": "model-deviation"})
 
 
 def finding_still_fails(f):
